@@ -571,11 +571,12 @@ theorem scalar_ta_conv {t : GoTy} {v : GoVal} (ht : scalarTy t = true) (hv : sca
   · -- float
     rcases ht with rfl | rfl
     · simp [wrapScalar, typeOf, inst, maxF32] at h
-      simp only [finite, fExp, bne_iff_ne, ne_eq]
+      simp only [if_true, finite, fExp, bne_iff_ne, ne_eq]
       simp only [Nat.reducePow] at h ⊢
       have h' := of_decide_eq_true h
       omega
-    · simpa [wrapScalar, typeOf, inst] using h
+    · simp only [show (64 : Nat) ≠ 32 by decide, if_false] at hv ⊢
+      exact hv.2
 
 theorem ta_conv : ∀ (ty : GoTy) (via : Bool) (v : GoVal), Modelled ty = true → hasType ty v = true →
     inst (typeOf ty) (wrap via ty v) = true → TaOK via ty v = true := by
